@@ -44,7 +44,8 @@ def backslash_only_line(replay):
     pat = r'(?:(?<=\n)|(?<=\r)|^)([ \t\f]*)\\(?:\r\n|\n|\r)[ \t\f]*'   # any of the three line ends, also after a lone CR
     if not re.search(pat, text):
         return False
-    fixed = re.sub(pat, lambda m: m.group(1), text)
+    # CPython resets the column at a form feed: what counts is the white space after the last one
+    fixed = re.sub(r'(?m)^[ \t\f]*\f', '', text)
     mod = importlib.import_module('harness.props.' + replay['property'])
     if hasattr(mod, 'recheck'):
         return mod.recheck(replay, fixed) is None
@@ -70,7 +71,8 @@ def formfeed_at_line_start(replay):
     pat = r'(?m)^([ \t]*)\f+'
     if not re.search(pat, text):
         return False
-    fixed = re.sub(pat, lambda m: m.group(1), text)
+    # CPython resets the column at a form feed: what counts is the white space after the last one
+    fixed = re.sub(r'(?m)^[ \t\f]*\f', '', text)
     mod = importlib.import_module('harness.props.' + replay['property'])
     if hasattr(mod, 'recheck'):
         return mod.recheck(replay, fixed) is None
